@@ -11,6 +11,9 @@ for pid in ids:
     name = f'{pid}-{os.path.basename(src)}'
     dst = os.path.join('/verif/seeded', name)
     os.makedirs(dst, exist_ok=True)
+    prev_verified = {}
+    if os.path.exists(os.path.join(dst, 'meta.json')):
+      prev_verified = json.load(open(os.path.join(dst, 'meta.json'))).get('verified', {})
     for f in ('patch.diff', 'demo.py', 'meta.json'):
       shutil.copy(os.path.join(src, f), os.path.join(dst, f))
     for f in glob.glob(os.path.join(src, 'found_by_*.json')):
@@ -27,7 +30,11 @@ for pid in ids:
         'what_was_run': 'tools/seed_eval.py: patch applied to a scratch copy of /repo; '
                         'tools/baseline.sh there; demo.py on a pristine and on the patched copy; '
                         './check <ID> quick with VERIF_REPO=<patched copy>',
-        'patch_applies': r.get('patch_applies'), 'baseline': r.get('baseline'),
+        'patch_applies': r.get('patch_applies'),
+        # a re-evaluation without the baseline run keeps the earlier recorded baseline result
+        'baseline': r.get('baseline') or prev_verified.get('baseline'),
+        'repo_head': subprocess.check_output(['git', '-C', '/repo', 'rev-parse', '--short', 'HEAD'],
+                                             text=True).strip(),
         'demo_pristine_exit': r.get('demo_pristine'), 'demo_patched_exit': r.get('demo_patched'),
         'confirmed': bool(ok),
         'checks': {k[6:]: v for k, v in r.items() if k.startswith('check:')},
